@@ -105,6 +105,39 @@ contract(C + "Configuration.update_userdata", props=P, params={"self": "ref:Conf
                  "implies(has_key(self.userdata, x), dict_value(self.userdata, x) == old(dict_value(self.userdata, x)))))" % DEFS,
          })
 
+# -- userdata.getas: a present value is converted or kept, only a missing name yields the default ------------------------
+global_const("Unknown", ("sentinel", 1))
+oracle("ud_has", ["ref", "val"], "bool")           # name in userdata
+oracle("ud_value", ["ref", "val"], "val")          # userdata[name]
+oracle("conv_result", ["val", "val"], "val")       # convert(value) when it returns
+oracle("conv_fails", ["val", "val"], "bool")       # convert(value) raises ValueError
+oracle("is_a", ["val", "val"], "bool")             # isinstance(value, valuetype)
+contract("abs:UserData.get", trusted=True, pos_params=["self", "name", "default"], defaults={"default": None}, pure=True, result="any",
+         ensures={"dict.get": "result == ite(ud_has(self, name), ud_value(self, name), default)",
+                  "the-placeholder-is-never-a-stored-value": "implies(ud_has(self, name), ud_value(self, name) is not Unknown)"},
+         doc="dict.get of the UserData dictionary (A-lib); user data never holds the Unknown placeholder class")
+contract("user:convert", trusted=True, pos_params=["callee", "value"], pure=True, result="any",
+         raises=[Raises("ValueError", when="conv_fails(callee, value)")],
+         ensures={"value": "result == conv_result(callee, value)"},
+         doc="the converter (int, float, parse_bool, a user function): a function of its argument, may raise ValueError")
+contract("abs:isinstance_dyn", trusted=True, pos_params=["value", "valuetype"], pure=True, result="bool",
+         ensures={"value": "result == is_a(value, valuetype)"}, doc="isinstance(value, valuetype) for a run-time type argument")
+contract(U + "UserData.getas", props=P, params={"self": "ref:UserData", "convert": "any", "name": "any", "default": "any", "valuetype": "any"},
+         self_classes=["UserData"], result="any",
+         callsites={"self.get": "abs:UserData.get", "convert": "user:convert", "isinstance": "abs:isinstance_dyn"},
+         requires={"the-converter-is-callable": "uf_bool('is_callable', convert)"},
+         raises=[Raises("ValueError", when="ud_has(self, name) and not is_a(ud_value(self, name), (convert if valuetype is None else valuetype)) "
+                                           "and conv_fails(convert, ud_value(self, name))", label="conversion-of-a-present-value-fails")],
+         ensures={
+             "only-a-missing-name-yields-the-default": "implies(not ud_has(self, name), result == default)",
+             "a-present-value-of-the-wanted-type-is-kept":
+                 "implies(ud_has(self, name) and is_a(ud_value(self, name), (convert if valuetype is None else valuetype)), "
+                 "result == ud_value(self, name))",
+             "any-other-present-value-is-converted-also-a-falsy-one":
+                 "implies(ud_has(self, name) and not is_a(ud_value(self, name), (convert if valuetype is None else valuetype)), "
+                 "result == conv_result(convert, ud_value(self, name)))",
+         })
+
 prop("C20", level="other", bounded=[],
      explanation="proved: -D definitions are parsed as padding-stripped text, bare name = true, name = stripped text before the "
                  "first '=' of the unquoted definition, value = padding stripped first and then its quote pair (unqote removes "
